@@ -291,7 +291,13 @@ class ConnectionPool(RequestInterface):
                 closing_connections.append(connection)
             elif (
                 connection.is_idle()
-                and len([connection.is_idle() for connection in self._connections])
+                and len(
+                    [
+                        connection
+                        for connection in self._connections
+                        if connection.is_idle()
+                    ]
+                )
                 > self._max_keepalive_connections
             ):
                 # log: "closing idle connection"
